@@ -66,8 +66,8 @@ def schedule(kind: str, n: int, p_f: float, p_i: float, p_min: float) -> np.ndar
 def make_reservoir(cls: str, nx: int, p_f, p_i: float, table: str | None):
     from bluebonnet.flow import IdealReservoir, SinglePhaseReservoir  # noqa: PLC0415
 
-    if cls == "ideal":
-        return IdealReservoir(nx, p_f, p_i, None)
+    if cls == "ideal":  # the optional fluid argument must not change the ideal-gas result
+        return IdealReservoir(nx, p_f, p_i, tables.fluid(table, p_i) if table else None)
     return SinglePhaseReservoir(nx, p_f, p_i, tables.fluid(table, p_i))
 
 
